@@ -5,6 +5,7 @@ package main
 
 import (
 	"bytes"
+	"crypto/sha256"
 	"encoding/json"
 	"errors"
 	"fmt"
@@ -415,7 +416,8 @@ func q(b []byte) string {
 	if len(b) <= 24 {
 		return fmt.Sprintf("%q", b)
 	}
-	return fmt.Sprintf("%q...(%d bytes)", b[:12], len(b))
+	h := sha256.Sum256(b)
+	return fmt.Sprintf("%q...(%d bytes, sha256 %x)", b[:12], len(b), h[:6])
 }
 
 type verdict struct {
@@ -452,7 +454,7 @@ func runConsume(cs Case, content []byte, ch *choice.Chooser) verdict {
 	if k == nil {
 		return verdict{class: "harness", what: "unknown destination kind " + cs.Kind}
 	}
-	rd := &sreader{Name: "src", Data: content, C: ch, Errs: cs.Errs, ErrVals: cs.ErrValues, Zero: cs.Zero, CloseFaults: true}
+	rd := &sreader{Name: "src", Data: content, C: ch, Max: cs.Chunk, Errs: cs.Errs, ErrVals: cs.ErrValues, Zero: cs.Zero, CloseFaults: true}
 	var reader io.Reader
 	switch cs.Stream {
 	case "closer":
